@@ -24,16 +24,25 @@ SPACES = [9, 10, 11, 12, 13, 28, 29, 30, 31, 32, 133, 160, 5760] + list(range(81
          [8232, 8233, 8239, 8287, 12288]
 
 
-def impl_blocks(rows):
+LOCATIONS = [None, "anonymous", "Sheet1", "é sheet", "in_'q'!A7"]
+
+
+def impl_blocks(rows, location=None):
+    """`location`: None = the reader's default; "anonymous" = a sheet without a name; else a named sheet
+    (as read_excel / the loader supply): the origin row of a block does not depend on it"""
     from pdtable.io.parsers.blocks import parse_blocks_stable
     from pdtable import BlockType
+    from pdtable.table_origin import NullLocationFile
+    kw = {}
+    if location is not None:
+        kw["location_sheet"] = NullLocationFile().make_location_sheet(None if location == "anonymous" else location)
 
     def rec(cell_grid, origin=None, fixer=None):
         return ([list(r) for r in cell_grid], origin.input_location.row)
 
     handlers = {bt: rec for bt in BlockType}
     out = []
-    for bt, (grid, row) in parse_blocks_stable(iter(rows), block_handlers=handlers):
+    for bt, (grid, row) in parse_blocks_stable(iter(rows), block_handlers=handlers, **kw):
         out.append({"ty": bt.name, "first": row, "rows": grid})
     return out
 
@@ -263,9 +272,64 @@ def run(tier, seed, model_ok, translator, search=False):
     return out
 
 
+def interleaved_ok(rows, other, out, case):
+    """two readers alive at once (different output forms): the cell-grid reader must deliver what it delivers alone"""
+    from pdtable.io.parsers.blocks import parse_blocks
+
+    def canon(it):
+        res = []
+        try:
+            for bt, b in it:
+                res.append((bt.name, [list(r) for r in b] if isinstance(b, list) else type(b).__name__))
+                yield None
+        except Exception as e:  # noqa: BLE001
+            res.append(("EXC", type(e).__name__))
+        yield res
+
+    def run_alone():
+        g = canon(parse_blocks(iter(rows), to="cellgrid"))
+        last = None
+        for last in g:
+            pass
+        return last
+
+    import warnings
+    with warnings.catch_warnings():
+        warnings.simplefilter("ignore")
+        return _interleaved(rows, other, out, case, canon, run_alone, parse_blocks)
+
+
+def _interleaved(rows, other, out, case, canon, run_alone, parse_blocks):
+    alone = run_alone()
+    g1 = canon(parse_blocks(iter(rows), to="cellgrid"))
+    g2 = canon(parse_blocks(iter(other), to="pdtable"))
+    r1 = r2 = None
+    done1 = done2 = False
+    while not (done1 and done2):
+        if not done1:
+            try:
+                v = next(g1)
+                if v is not None:
+                    r1 = v
+            except StopIteration:
+                done1 = True
+        if not done2:
+            try:
+                v = next(g2)
+                if v is not None:
+                    r2 = v
+            except StopIteration:
+                done2 = True
+    if r1 != alone:
+        out.fail("a reader delivers other blocks when a second reader (another output form) is consumed alongside it",
+                 case, r1, alone, key="interleaved_readers")
+
+
 def _one(rows, case, out, ops, pending, model_ok, prefix_rng, record):
     try:
-        blocks = impl_blocks(rows)
+        import zlib
+        location = LOCATIONS[zlib.crc32(repr(rows).encode("utf-8", "replace")) % len(LOCATIONS)] if rows else None
+        blocks = impl_blocks(rows, location)
     except Exception as e:   # the splitter itself must not raise on any row sequence
         out.fail("parse_blocks_stable raised", case, repr(e), None, key="raised:" + type(e).__name__)
         return None
@@ -278,6 +342,9 @@ def _one(rows, case, out, ops, pending, model_ok, prefix_rng, record):
     oracle(rows, blocks, out, case)
     if prefix_rng is not None and rows:
         oracle_prefix(rows, blocks, prefix_rng.randint(0, len(rows)), out, case)
+        if prefix_rng.random() < 0.35:
+            other = [["**o"], ["all"], ["a", "b"], ["-", "text"], ["1", "x"], [], ["**stub"], [], [":t"], ["***d"], ["v"]]
+            interleaved_ok(rows, other if prefix_rng.random() < 0.5 else rows, out, case)
     if model_ok:
         ops.append({"op": "segment", "rows": grid_to_json(rows)})
         pending.append(("segment", case, [{"ty": b["ty"], "first": b["first"], "rows": grid_to_json(b["rows"])}
